@@ -96,8 +96,15 @@ func runRenewal(via string) renewalOutcome {
 	}
 	ttl0 := mr.TTL(key)
 	mr.FastForward(60 * time.Second)
-	time.Sleep(31500 * time.Millisecond) // one heartbeat
+	// one heartbeat (30 s ticker). The shared clock only moves by FastForward, so the claim's ttl stays at
+	// 30 s until a renewal rewrites it; a renewal that is merely late on a busy machine is waited for (up to
+	// two and a half ticks), a renewal that never comes is what is reported.
+	time.Sleep(30500 * time.Millisecond)
 	ttlAfterBeat := mr.TTL(key)
+	for waited := 0; ttlAfterBeat <= 30*time.Second && mr.Exists(key) && waited < 45000; waited += 250 {
+		time.Sleep(250 * time.Millisecond)
+		ttlAfterBeat = mr.TTL(key)
+	}
 	mr.FastForward(45 * time.Second)
 	idB, errB := start(stB)
 	if errB == nil && idB == idA {
